@@ -16,6 +16,11 @@ ASSUMPTIONS = [
     'theory axioms assumed as definitions and not validated against CPython: ledger recursion equations (sched_theory.LEDGER_AX), list-sum extensionality (passes.SUM_AX), abstract text theory (text.py), '
     'csv / float / int / strftime inverse pairs (csvio.LIB_AX); validated on small exhaustive domains in the thorough tier: list theory, Desc/Acyc/rootof/TCp axioms (selftest/validate_axioms.py), proved in Lean: lemmas/Graph.lean',
     'every `assume` in a contract is either part of the assumed contract of a callee / library function or a definitional reveal; the count per contracts module is printed in the evidence (assume_scan)',
+    'termination measures (graph_theory.MEASURE_AX): for every acyclic parent map / dependency relation there is a height, a depth and a link rank that decrease along the edges - true of FINITE graphs (Lean lemmas K1 / wfE); heaps are finite',
+    'generators are executed eagerly (yield appends to a ghost output list); laziness is not modelled - every consumer in the repository exhausts the generator at once and nothing is written in between',
+    'spec functions introduced by their unfolding axioms (definitions, conservative on well-founded arguments): dfs / dfs_upto guarded by the forest flag (closure.DFS_AX), take (prefix of a list), every_filter_holds, every_line_has_visible_width',
+    'allocation: the part of the heap that is not allocated yet is modelled as blank task objects that satisfy the invariant trivially and that nobody refers to (Task.__init__ unit); a fresh list object differs from every list object a task holds',
+    'the solver budget is z3\'s deterministic resource limit; cvc5 (only consulted for z3\'s unknowns) runs under a wall-clock limit',
 ]
 
 
